@@ -114,9 +114,6 @@ def fixed_goals():
 
 
 NOT_YET = {
-    'C03': 'not claimed: the round-trip statement is a lemma over the BreakTime and MakeTime contracts (both discharged, see C01/C02) that must relate the bracket of an instant by '
-           'unix time to the bracket of its civil second by civil time; that needs the table-wide order and spacing facts, which the quantifier-free ghost-index contracts '
-           'do not carry. Not mechanised in the time available; no weaker claim is made in its place (DESIGN.md 11.6).',
     'C06': 'not claimed: monotonicity of convert() relates two MakeTime calls whose civil seconds may lie in different brackets; as for C03 the composition lemma needs '
            'table-wide order facts and was not mechanised (DESIGN.md 11.6). MakeTime itself is under contract (C02).',
     'C07': 'not claimed: unit `format` (time_zone_format.cc: std::string building, strftime/strptime pass-through, locale) was not brought through the extractor in the time '
@@ -299,4 +296,23 @@ PROPERTIES['C10'] = dict(
     level_note='PARTIAL. NOT decided: next_transition / prev_transition, the 400-year branch of BreakTime (excluded by precondition), convert()/lookup wrappers in time_zone.h and '
                'time_zone_lookup.cc, fixed-offset zones, and that Load establishes the assumed well-formedness and margin (finding D6 shows it does not establish the margin for crafted files).',
     trusted_base=ZONE_TRUSTED, not_decided='next/prev_transition; BreakTime beyond the last row in extended zones; Load; public wrappers', assumptions=ZONE_ASSUME,
+)
+
+
+def c03_goals():
+    return [G(n, 'zone', harness=n, kind='lemma', replace=['BreakTime', 'MakeTime'], backends=('cvc5bv',), timeout=900, defines=['OSEC_OPAQUE'])
+            for n in ('pl_C03_after', 'pl_C03_before', 'pl_C03_inside_a', 'pl_C03_inside_b')]
+
+
+PROPERTIES['C03'] = dict(
+    goals=lambda: zone_lemmas() + [enforce('zone', 'BreakTime', timeout=800, **ZD)] + maketime_goals() + c03_goals() + civil_second_support(),
+    level_text='Proof of the instant -> civil -> instant direction as four property lemmas over the CONTRACTS of BreakTime and MakeTime (the two calls are replaced by their '
+               'contracts - preconditions asserted, postconditions assumed - on a symbolic table of arbitrary length; both contracts are discharged against the code in the same check): '
+               'for t before the first row, at or after the last row, and inside row i\'s interval with the civil second of t before / at-or-after row i+1\'s civil second, looking '
+               'the civil second of t up again is never SKIPPED and is UNIQUE with pre == t or REPEATED with t == pre or t == post.  The four scenarios are exhaustive for non-extended '
+               'zones; reachability probes (pl_C03_probe_a/b, run by hand) confirm the scenario assumptions are satisfiable and that the REPEATED answer really occurs.',
+    level_note='PARTIAL. Assumed per scenario: instances, at rows i, i+1, i+2, 0 and n-1, of the table invariants (WFI/TYWF/MARGIN, order by unix time and by civil time) and of the '
+               'spacing "offset changes farther apart than the sum of their sizes" (two days), as in the property\'s quantifier. NOT decided: the converse clause (every instant '
+               'returned for a UNIQUE or REPEATED civil second displays that civil second), zones in their footer-extended years (extended_), and Load establishing the invariants.',
+    trusted_base=ZONE_TRUSTED, not_decided='converse direction; extended_ years; Load', assumptions=ZONE_ASSUME + ['C library model: malloc in the lemma harness is assumed to succeed'],
 )
